@@ -17,6 +17,7 @@ fn listings(em: &ExpirationMap) -> Vec<(i64, u64, u64)> {
 #[test]
 fn expiration_index_keeps_other_keys() {
     if !only("expiration_index_keeps_other_keys") { return; }
+    guarded("expiration_index_keeps_other_keys", || {
     let mut rng = Rng::new(11);
     for _ in 0..iters(3000) {
         let em = ExpirationMap::new();
@@ -76,11 +77,13 @@ fn expiration_index_keeps_other_keys() {
             }
         }
     }
+    });
 }
 
 #[test]
 fn cleanup_hands_out_every_due_bucket() {
     if !only("cleanup_hands_out_every_due_bucket") { return; }
+    guarded("cleanup_hands_out_every_due_bucket", || {
     let mut rng = Rng::new(12);
     for _ in 0..iters(2000) {
         let em = ExpirationMap::new();
@@ -122,11 +125,13 @@ fn cleanup_hands_out_every_due_bucket() {
             }
         }
     }
+    });
 }
 
 #[test]
 fn store_cleanup_removes_only_expired() {
     if !only("store_cleanup_removes_only_expired") { return; }
+    guarded("store_cleanup_removes_only_expired", || {
     use crate::policy::LFUPolicy;
     use crate::store::ShardedMap;
     use std::sync::Arc;
@@ -201,4 +206,5 @@ fn store_cleanup_removes_only_expired() {
         }
         let _ = p.close();
     }
+    });
 }
